@@ -19,19 +19,19 @@ package zkaffg
 //@   use bits
 //@   nopanic[C05]
 //@   inline
-//@   requires public.Kv != nil && public.Dv != nil && public.Fp != nil && public.Xp != nil && pkok(public.Prover) && pkvals(public.Prover) && pkbig(public.Prover) && pkok(public.Verifier) && pkvals(public.Verifier) && pkbig(public.Verifier) && pedok(public.Aux) && (p != nil ==> shaped(p))
+//@   requires true && true && true && public.Xp != nil && pkok(public.Prover) && pkvals(public.Prover) && pkbig(public.Prover) && pkok(public.Verifier) && pkvals(public.Verifier) && pkbig(public.Verifier) && pedok(public.Aux) && (p != nil ==> shaped(p))
 
 //@ func (*Proof).Verify
 //@   use bits
 //@   nopanic[C05]
 //@   modifies hstate(hash)
-//@   requires hash != nil && hash.h != nil && public.Kv != nil && public.Dv != nil && public.Fp != nil && public.Xp != nil && pkok(public.Prover) && pkvals(public.Prover) && pkbig(public.Prover) && pkok(public.Verifier) && pkvals(public.Verifier) && pkbig(public.Verifier) && pedok(public.Aux) && (p != nil ==> shaped(p))
+//@   requires hash != nil && hash.h != nil && true && true && true && public.Xp != nil && pkok(public.Prover) && pkvals(public.Prover) && pkbig(public.Prover) && pkok(public.Verifier) && pkvals(public.Verifier) && pkbig(public.Verifier) && pedok(public.Aux) && (p != nil ==> shaped(p))
 
 //@ func challenge
 //@   use bits
 //@   nopanic[C05]
 //@   inline
-//@   requires hash != nil && hash.h != nil && group != nil && public.Kv != nil && public.Dv != nil && public.Fp != nil && public.Xp != nil && pkok(public.Prover) && pkvals(public.Prover) && pkbig(public.Prover) && pkok(public.Verifier) && pkvals(public.Verifier) && pkbig(public.Verifier) && pedok(public.Aux) && commitment != nil
+//@   requires hash != nil && hash.h != nil && group != nil && true && true && true && public.Xp != nil && pkok(public.Prover) && pkvals(public.Prover) && pkbig(public.Prover) && pkok(public.Verifier) && pkvals(public.Verifier) && pkbig(public.Verifier) && pedok(public.Aux) && commitment != nil
 //@   use absorb
 //@   ensures[C10] result1 == nil ==> absorbed(hstate(hash), habs(iface(public.Kv)))
 //@   ensures[C10] result1 == nil ==> absorbed(hstate(hash), habs(iface(public.Dv)))
